@@ -55,6 +55,9 @@ inline Files src_S1() {
   return {{"lib", "DEFINE IF <V> THEN <P> ELSE <P> END AS\n #0 := 0; #1 := 1; #2 := $0;\n LOOP #2 DO #0 := 1; #1 := 0 END;\n LOOP #0 DO $1 END;\n LOOP #1 DO $2 END\nENDDEF\nPROGRAM add IN a, b OUT a DO\n LOOP b DO\n  a := a + 1\n END\nEND\n"},
           {"main", "INCLUDE \"lib\"\nx0 := 3;\nla: LOOP x0 DO\n x1 := RUN add WITH x1, x0 END\nEND;\nIF x1 THEN x2 := 1 ELSE x2 := 2 END;\nIF 0 THEN x3 := 1 ELSE x3 := RUN add WITH x2, 4 END END;\nx0 := x0 - 1;\nIF x0 = 0 THEN GOTO lb;\nGOTO la;\nlb: x4 := x1\n"}};
 }
+// the same text as S1 with the macro library shifted down two lines and renamed: every definition is textually identical
+// but stands at another location (a cache keyed by text would serve stale positions)
+inline Files src_S1_shifted() { Files f = src_S1(); Files g; g["lib2"] = "\n\n" + f["lib"]; std::string m = f["main"]; size_t p = m.find("\"lib\""); m.replace(p, 5, "\"lib2\""); g["main"] = "\n" + m; return g; }
 inline Files src_S2() { return {{"main", "x0 := ;\nLOOP x1 DO x2 := RUN nothere WITH 1 END END;\nGOTO nowhere;\nDEFINE <P> AS foo ENDDEF\nx3 := 99999999999\n"}}; }
 inline Files src_S3() { return {{"main", "INCLUDE \"a\"\nINCLUDE \"missing\"\nx0 := RUN f WITH 2 END\n"}, {"a", "INCLUDE \"b\"\nINCLUDE \"a\"\n"}, {"b", "PROGRAM f IN q DO x0 := q + 1 END\n"}}; }
 
@@ -71,9 +74,9 @@ inline std::string op_macros() {
   Theo::ScanResult s = Theo::scan(src_S1(), "main"); Theo::MacroExtractionResult m = Theo::extract_macros(s.toks); Theo::MacroApplicationResult a = Theo::apply_macros(m.tokens, m.macros, 64);
   std::string o; for (auto &t : a.transformed_sequence) o += t.text + "@" + t.file + ":" + std::to_string(t.line) + " "; for (auto &e : a.errors) o += "E" + e.msg; return o;
 }
-static const int NOPS = 7;
-inline const char *op_name(int i) { static const char *n[] = {"compile(S1: loops+macro with temporaries+calls)", "compile(S2: three kinds of errors)", "compile(S3: includes+missing file)", "run VM on S1", "leave a half-run VM with breakpoints alive", "scan(S3)", "extract+apply macros(S1)"}; return n[i]; }
+static const int NOPS = 8;
+inline const char *op_name(int i) { static const char *n[] = {"compile(S1: loops+macro with temporaries+calls)", "compile(S2: three kinds of errors)", "compile(S3: includes+missing file)", "run VM on S1", "leave a half-run VM with breakpoints alive", "scan(S3)", "extract+apply macros(S1)", "compile(S1 with identical definitions at other lines/files)"}; return n[i]; }
 inline std::string run_op(int i, std::vector<Theo::VM *> *keep) {
-  switch (i) { case 0: return op_compile(src_S1()); case 1: return op_compile(src_S2()); case 2: return op_compile(src_S3()); case 3: return op_run_vm(); case 4: return op_debug_vm(keep); case 5: return op_scan(); default: return op_macros(); }
+  switch (i) { case 0: return op_compile(src_S1()); case 1: return op_compile(src_S2()); case 2: return op_compile(src_S3()); case 3: return op_run_vm(); case 4: return op_debug_vm(keep); case 5: return op_scan(); case 6: return op_macros(); default: return op_compile(src_S1_shifted()); }
 }
 }  // namespace det
